@@ -65,7 +65,8 @@ def build_graph(ids, choice, variant):
     pairs = side_pairs(ids)
     g = rgfa.Graph()
     for i, n in enumerate(ids):
-        g.add_seg(n, SEQS[i])
+        # the "softmask" variant carries lower-case (soft-masked) bases, as assemblies and rGFAs built from them do
+        g.add_seg(n, SEQS[i] if variant != "softmask" else SEQS[i][:1] + SEQS[i][1:].lower())
     for j, (pi, fl) in enumerate(choice):
         l = decl(pairs[pi], fl)
         if variant == "overlap":
@@ -262,13 +263,13 @@ def run_shard(spec, tier, scratch):
     sh, of = spec["shard"], spec["of"]
     gi = 0
     for name, n, max_links, maxlen in configs(tier):
-        for idset, variants in (("plain", ("plain", "overlap")), ("odd", ("lfirst",)), ("numeric", ("plain",))):
+        for idset, variants in (("plain", ("plain", "overlap", "softmask")), ("odd", ("lfirst",)), ("numeric", ("plain",))):
             ids = ID_SETS[idset][:n]
             for choice in graph_space(ids, max_links):
                 for variant in variants:
                     if idset in ("odd", "numeric") and len(choice) > 2:
                         continue  # id/line-order variants only on the small link sets
-                    if variant == "overlap" and (len(choice) == 0 or len(choice) > 2):
+                    if variant in ("overlap", "softmask") and (len(choice) == 0 or len(choice) > 2):
                         continue
                     gi += 1
                     if gi % of != sh:
